@@ -23,6 +23,8 @@ ENGINES = [
     {"name": "Concentration.tla", "path": "/verif/spec/Concentration.tla", "serves_properties": ["C13"], "kind_free_text": "Escobar-West parameter wiring as exact rationals; ConcentrationKN.tla for (K, n)"},
     {"name": "Cache.tla", "path": "/verif/spec/Cache.tla", "serves_properties": ["C14"], "kind_free_text": "memo tables with real key functions under arbitrary histories"},
     {"name": "Summaries*.tla", "path": "/verif/spec/SummariesMap.tla", "serves_properties": ["C11", "C12", "C16"], "kind_free_text": "SummariesMap (MAP / topology report scan), SummariesTable (result table rows), SummariesCons / SummariesCons4 (consensus)"},
+    {"name": "Loader.tla", "path": "/verif/spec/Loader.tla", "serves_properties": ["C17"], "kind_free_text": "input tables as cell->rows functions: documented vs implementation-shaped filtering"},
+    {"name": "Emission.tla", "path": "/verif/spec/Emission.tla", "serves_properties": ["C05"], "kind_free_text": "PyClone genotype enumeration and exact rational VAFs"},
     {"name": "Forests.tla", "path": "/verif/spec/Forests.tla", "serves_properties": ["C01", "C03", "C04", "C06", "C07", "C08", "C09", "C11", "C12", "C16"], "kind_free_text": "canonical forest universe"},
 ]
 
@@ -166,6 +168,20 @@ CHECKS = {
                 "file gives the same entries back, and each run's event stream is validated by TLC against Chain.tla.",
         "note": "Trusted: TLC, recorder wrappers (module globals of phyclone.run, no source hooks), projection. Walks and chains are seeded samples.",
     },
+    "C17": {
+        "engine": "Loader.tla",
+        "category": "model_checking",
+        "technique": "TLC enumerates all small input tables with the documented kept set, the implementation-shaped rule and the excluded-input flags; each table written as real files in several row orders and loaded",
+        "design_ref": "DESIGN.md 5 C17",
+        "text": "Loader.tla enumerates every table of 2x2 (all 1 296), 3x2 and 2x3 (sampled; thorough every 7th of 46 656) mutation x sample cells "
+                "holding no row, one row with major 1/2/0, a duplicate, or a valid row beside a zero-copy-number row; it gives the documented kept "
+                "set, the count-based implementation rule and flags the inputs the property excludes, and proves the two rules differ only "
+                "through zero rows removed first. Every judged table is written as TSV/CSV in 4 row orders (optional columns present/absent, "
+                "byte-identical and differing duplicates, every other one with a cluster file) and loaded: kept set, names, numbering, sample "
+                "order, per-sample rows (= that row loaded alone), bit-identical results across orders, cluster sums and numbering, defaults, "
+                "and the major<minor error.",
+        "note": "Trusted: TLC, file writer. The grid of a row loaded alone is the per-row reference (the emission model itself is C05).",
+    },
     "C19": {
         "engine": "Chain.tla",
         "category": "model_checking",
@@ -191,6 +207,20 @@ CHECKS = {
                 "enumerated (run wiring and library wiring, TLC's tables and the real density) and max|pi K - pi| <= 1e-10 is required. The "
                 "subtree move on >=3 points is a listed open finding (TLC refutes even the ideal version); its behaviour is pinned by a fingerprint.",
         "note": "Trusted: TLC, EnumRNG, projection. Bounded to n<=3 (quick) / n<=4 DP,PRG and n<=3 subtree (thorough).",
+    },
+    "C05": {
+        "engine": "Emission.tla",
+        "category": "model_checking",
+        "technique": "TLC enumerates copy-number configurations and prints genotype lists and exact rational VAFs on the grid; loaded grids compared with exact-rational pmf mixtures",
+        "design_ref": "DESIGN.md 5 C05",
+        "text": "Emission.tla enumerates major<=3 (thorough 4) x minor<=major x normal {1,2,3} x error rate {1/1000,1/100,2/5} x tumour content "
+                "{1,3/4,1/10}: mutational genotypes with the min(1-eps, .) cap, uniform prior, and the exact rational expected allele fraction of "
+                "each genotype at every grid point; GenotypeCount / VafInUnit / VafAtZero hold on all. For 120 sampled (thorough: all) "
+                "configurations a real input file with read counts from zero depth to depth 5000 is loaded for the binomial and for the "
+                "beta-binomial with precision 1 and 400.5 and every grid entry is compared (1e-9) with the mixture of exact Fraction pmfs of TLC's "
+                "VAFs; grids sum to one over alternate counts; several samples in non-sorted file order; a clustered data point equals the sum of "
+                "its members' grids with outlier terms times cluster size.",
+        "note": "TLC fixes genotypes and VAFs; the binomial/beta-binomial pmf (special-function numerics) is evaluated by the harness in exact rationals - outside what TLC can hold.",
     },
     "C06": {
         "engine": "TreeADT.tla",
